@@ -85,7 +85,32 @@ func c09Cases(c *drv.Ctx, n int) []detCase {
 	var cases []detCase
 	res := drv.RunRapid("C09-cases", n, drv.ShardSeed(c.Seed, "c09-cases", 0), time.Second, func(t *rapid.T) {
 		v := rapid.SampledFrom([]string{"v0", "v1", "v2", "v3", "n0", "n3", "v0", "v1"}).Draw(t, "variant")
-		if rapid.IntRange(0, 2).Draw(t, "kind") == 0 {
+		kind := rapid.IntRange(0, 3).Draw(t, "kind")
+		if kind == 3 {
+			// several diagnostics of the same kind (undefined names, unused rules): whatever
+			// collects them must not report them in the order of a map
+			p := gram.Profiles["plain"]
+			p.MaxRules, p.Depth = 5, 2
+			g := gram.WellFormedGrammar(t, p)
+			n := 0
+			for k := rapid.IntRange(2, 4).Draw(t, "warnrounds"); k > 0; k-- {
+				n += len(gram.AddWarned(t, g))
+			}
+			// names are numbered per round: make them distinct across rounds
+			seen := map[string]int{}
+			for _, r := range g.Rules {
+				seen[r.Name]++
+				if seen[r.Name] > 1 {
+					return
+				}
+			}
+			g.Package, g.Struct = "g", "G"
+			gram.Decorate(t, g, gram.DecorateOpts{NoLineCommentInPredicate: true})
+			pr := gram.Printer{G: g, S: &gram.Spell{}}
+			cases = append(cases, detCase{Text: pr.Text(), Variant: v, Kind: "many-warnings", Rules: len(g.Rules), Diags: n})
+			return
+		}
+		if kind == 0 {
 			cs := c08Gen(t, fnd.OpenShapes("C08"), 0)
 			if rapid.Bool().Draw(t, "chain") {
 				gram.AddChain(cs.G, rapid.IntRange(20, 60).Draw(t, "chainlen"))
